@@ -144,6 +144,9 @@ def classify(text):
     return lines
 
 
+ARGS_N = [0]
+
+
 def one_case(rng, sections, excl):
     """sections: dict section -> (defaults, meta)"""
     from oslo_policy import generator, policy
@@ -170,6 +173,10 @@ def one_case(rng, sections, excl):
                 from oslo_config import cfg as _cfg
                 for fmt, path in (('yaml', out), ('json', outj)):
                     args = [a for ns in pol for a in ('--namespace', ns)] + ['--output-file', path, '--format', fmt]
+                    ARGS_N[0] += 1
+                    if fmt == 'yaml' and ARGS_N[0] % 4 == 1:
+                        args = args[:-2]        # YAML is the documented default format: no --format argument at all
+                        c['_no_format_argument'] = True
                     if excl:
                         args.append('--exclude-deprecated')
                     generator.generate_sample(args=args, conf=_cfg.ConfigOpts())
